@@ -332,7 +332,7 @@ def endpoint_cases(rng, n):
         yield dict(tag='date_range', lines=['(drange range %d %s %s)' % (dt2us(today), e0, e1)])
         sg = 1 if span >= 0 else -1
         if abs(span) > 4000:
-            steps = ['(p %s)' % hexs('%dy' % (5 * sg)), '(p %s)' % hexs('%dw' % (200 * sg))]
+            steps = ['(int %d)' % (1461 * sg), '(p %s)' % hexs('%dw' % (200 * sg))]      # no month-based step: the start's day of month is not under control
         elif abs(span) > 500:
             steps = ['(p %s)' % hexs('%dw' % (4 * sg)), '(int %d)' % (30 * sg), '(p %s)' % hexs('%db' % (20 * sg))]
         else:
